@@ -1,4 +1,5 @@
 import ZapVerif.Model.Writers
+import ZapVerif.Proofs.TransMultiWS
 import ZapVerif.Proofs.Merge
 import ZapVerif.Gen.Delegates
 /-! # C13 — zap's writers and WriteSyncer combinators honour the io.Writer contract -/
@@ -120,5 +121,143 @@ theorem full_count (p : Bytes) : writerWrite p = (p.length, false) := rfl
 /-- non-vacuity: the vector that the pre-repair loop got wrong -/
 example : multiWrite [1, 2, 3, 4, 5] [⟨0, false⟩, ⟨5, false⟩] = (0, []) := by decide
 example : multiWrite [1, 2, 3] [⟨3, true⟩, ⟨1, false⟩, ⟨2, true⟩] = (1, [0, 2]) := by decide
+
+end ZapVerif.C13
+
+/-! ## the model's multi-syncer loops ARE the source (Go→GoMini translation, docs/TRANSLATOR.md)
+
+`Gen/TransMultiWS.lean` holds the bodies of `multiWriteSyncer.Write` and `multiWriteSyncer.Sync` as read from
+zapcore/write_syncer.go on this run.  Sinks are values that script their own outcome (`TransMultiWS.sinksOf`), errors
+are lists of ids and `multierr.Append` is concatenation.  For EVERY number of sinks and every outcome vector the
+interpreted loops return exactly `Writers.multiWrite` / `Writers.multiSync`, and every sink's `Write` is handed the
+same `p` (the recorded calls). -/
+namespace ZapVerif.C13
+set_option linter.unusedSimpArgs false
+open ZapVerif ZapVerif.Writers ZapVerif.GoMini ZapVerif.TransMultiWS ZapVerif.Gen.TransMultiWS
+
+/-- the loop variables of `Write` after an iteration (absent before the first one) -/
+def wTail : Option (Int × Val × Int × List Val) → Env
+  | none => []
+  | some (i, w, n, e) => [("l2", .int i), ("l3", w), ("l4", .int n), ("l5", .list e)]
+
+/-- the state of `Write` at the loop head -/
+def wAbs (p : Bytes) (sinks : List Val) (a : (Nat × List Nat × List Val) × Option (Int × Val × Int × List Val)) : State :=
+  ⟨[("p0", .bytes p), ("l0", .list (a.1.2.1.map fun (i : Nat) => Val.int i)), ("l1", .int a.1.1)] ++ wTail a.2,
+   [("ws", .list sinks), ("writes", .list a.1.2.2)]⟩
+
+/-- the abstract step of the `Write` loop: `wstep` plus the loop variables it leaves behind -/
+def wStep (p : Bytes) (a : (Nat × List Nat × List Val) × Option (Int × Val × Int × List Val)) (i : Nat)
+    (y : Writers.Out × Nat) : (Nat × List Nat × List Val) × Option (Int × Val × Int × List Val) :=
+  (wstep p a.1 i y,
+   some ((i : Int), sinkV y.1.n (if y.1.err then [.int y.2] else []) [], (y.1.n : Int), if y.1.err then [.int y.2] else []))
+
+theorem wStep_fold_fst (p : Bytes) : ∀ (l : List ((Writers.Out × Nat) × Nat))
+    (a : (Nat × List Nat × List Val) × Option (Int × Val × Int × List Val)),
+    (l.foldl (fun a q => wStep p a q.2 q.1) a).1 = l.foldl (fun s q => wstep p s q.2 q.1) a.1
+  | [], _ => rfl
+  | q :: l, a => by simp only [List.foldl_cons]; rw [wStep_fold_fst p l]; rfl
+
+/-- one iteration of the `Write` loop is `wstep` (hence `Writers.multiStep`): the sink is called with `p`, its
+    error is appended, the count becomes the sink's count on the first iteration or when it is smaller -/
+theorem multiWrite_iter_matches_source (p : Bytes) (sinks : List Val) (rec : Stmt → State → GoMini.Out)
+    (a : (Nat × List Nat × List Val) × Option (Int × Val × Int × List Val)) (i : Nat) (y : Writers.Out × Nat) :
+    (match Write_loop0 with
+      | .range k v _ body => execS X rec body (((wAbs p sinks a).assign1 k (.int i)).assign1 v
+          (sinkV y.1.n (if y.1.err then [.int y.2] else []) []))
+      | _ => .oof) = .normal (wAbs p sinks (wStep p a i y)) := by
+  obtain ⟨⟨c, errs, ws⟩, t⟩ := a
+  obtain ⟨o, j⟩ := y
+  by_cases h0 : i = 0 <;> by_cases h1 : o.n < c <;> cases t <;> cases he : o.err <;>
+    simp [Write_loop0, wAbs, wTail, wStep, wstep, h0, h1, he]
+
+/-- the whole loop of `multiWriteSyncer.Write` is the model's fold, for every number of sinks; no fuel is needed -/
+theorem multiWrite_loop_matches_source (p : Bytes) (outs : List Writers.Out) (rec : Stmt → State → GoMini.Out) :
+    ∃ t, execS X rec Write_loop0 (wAbs p (sinksOf outs) ((0, [], []), none)) =
+      .normal (wAbs p (sinksOf outs) (wfold p outs 0 (0, [], []), t)) := by
+  have hiter := multiWrite_iter_matches_source p (sinksOf outs) rec
+  unfold Write_loop0 at hiter ⊢
+  rw [execS_range]
+  have hfold := rangeRun_fold
+    (execS X rec _) _ _ (wAbs p (sinksOf outs))
+    (fun y : Writers.Out × Nat => sinkV y.1.n (if y.1.err then [.int y.2] else []) []) (wStep p) hiter
+    outs.zipIdx 0 ((0, [], []), none)
+  refine ⟨((outs.zipIdx.zipIdx).foldl (fun a q => wStep p a q.2 q.1) ((0, [], []), none)).2, ?_⟩
+  have hws : evalE X (wAbs p (sinksOf outs) ((0, [], []), none)) (.fld "ws") = .ok (.list (sinksOf outs)) := by
+    simp [wAbs]
+  rw [hws]
+  simp only [Res.out_ok]
+  refine Eq.trans (show rangeRun _ _ _ (sinksOf outs) 0 _ = _ from hfold) ?_
+  congr 2
+  exact Prod.ext (wStep_fold_fst p _ _) rfl
+
+/-- `multiWriteSyncer.Write(p)` ≡ `Writers.multiWrite`: the count is the first sink's, then the minimum; every
+    sink's error is kept, in order; every sink is handed `p` — for every number of sinks and every outcome vector -/
+theorem multiWrite_matches_source (p : Bytes) (outs : List Writers.Out) (fuel : Nat) :
+    run X (fuel + 1) "Write" [.bytes p] [("ws", .list (sinksOf outs)), ("writes", .list [])] =
+      .done [.int (multiWrite p outs).1, .list ((multiWrite p outs).2.map fun (i : Nat) => Val.int i)]
+        [("ws", .list (sinksOf outs)), ("writes", .list ((sinksOf outs).map fun s => Val.list [s, .bytes p]))] := by
+  refine run_of_fin X _ _ Gen.TransMultiWS.Write [.bytes p] _ _ _ rfl rfl ?_
+  show (exec X (fuel + 1) Write_body ⟨[("p0", .bytes p)], _⟩).fin = _
+  rw [exec_succ]
+  obtain ⟨t, hl⟩ := multiWrite_loop_matches_source p outs (exec X fuel)
+  simp only [wAbs, wTail, List.map_nil, List.append_nil] at hl
+  rw [show ((0 : Nat) : Int) = 0 from rfl] at hl
+  obtain ⟨h1, h2, h3⟩ := wfold_multiWrite p outs
+  simp [Write_body, hl, h1, h2, h3]
+
+/-- the state of `Sync` at the loop head: the errors so far, and the loop variable once bound -/
+def sAbs (sinks : List Val) (a : List Nat × Option Val) : State :=
+  ⟨[("l0", .list (a.1.map fun (i : Nat) => Val.int i))] ++ (match a.2 with | none => [] | some w => [("l1", w)]),
+   [("ws", .list sinks)]⟩
+
+def sStep (a : List Nat × Option Val) (_ : Nat) (y : Bool × Nat) : List Nat × Option Val :=
+  (if y.1 then a.1 ++ [y.2] else a.1, some (sinkV 0 [] (if y.1 then [.int y.2] else [])))
+
+theorem sStep_fold (l : List ((Bool × Nat) × Nat)) (a : List Nat × Option Val) :
+    (l.foldl (fun a q => sStep a q.2 q.1) a).1 = a.1 ++ ((l.map (·.1)).filter (·.1)).map (·.2) := by
+  induction l generalizing a with
+  | nil => simp
+  | cons q l ih =>
+    rw [List.foldl_cons, ih]
+    obtain ⟨⟨b, j⟩, i⟩ := q
+    cases b <;> simp [sStep]
+
+/-- the loop of `multiWriteSyncer.Sync`: every sink is synced (no early exit), every error kept in order -/
+theorem multiSync_loop_matches_source (errs : List Bool) (rec : Stmt → State → GoMini.Out) :
+    ∃ t, execS X rec Sync_loop0 (sAbs (syncSinksOf errs) ([], none)) =
+      .normal (sAbs (syncSinksOf errs) ((multiSync errs).1, t)) := by
+  have hiter : ∀ (a : List Nat × Option Val) (i : Nat) (y : Bool × Nat),
+      (match Sync_loop0 with
+        | .range k v _ body => execS X rec body (((sAbs (syncSinksOf errs) a).assign1 k (.int i)).assign1 v
+            (sinkV 0 [] (if y.1 then [.int y.2] else [])))
+        | _ => .oof) = .normal (sAbs (syncSinksOf errs) (sStep a i y)) := by
+    intro ⟨es, t⟩ i ⟨b, j⟩
+    cases t <;> cases b <;> simp [Sync_loop0, sAbs, sStep]
+  unfold Sync_loop0 at hiter ⊢
+  rw [execS_range]
+  have hfold := rangeRun_fold (execS X rec _) _ _ (sAbs (syncSinksOf errs))
+    (fun y : Bool × Nat => sinkV 0 [] (if y.1 then [.int y.2] else [])) sStep hiter errs.zipIdx 0 ([], none)
+  refine ⟨((errs.zipIdx.zipIdx).foldl (fun a q => sStep a q.2 q.1) ([], none)).2, ?_⟩
+  have hws : evalE X (sAbs (syncSinksOf errs) ([], none)) (.fld "ws") = .ok (.list (syncSinksOf errs)) := by
+    simp [sAbs]
+  rw [hws]
+  simp only [Res.out_ok]
+  refine Eq.trans (show rangeRun _ _ _ (syncSinksOf errs) 0 _ = _ from hfold) ?_
+  congr 2
+  refine Prod.ext ?_ rfl
+  rw [sStep_fold]
+  simp [multiSync]
+
+/-- `multiWriteSyncer.Sync()` ≡ `Writers.multiSync`: the combined error lists exactly the failing sinks, in order,
+    for every number of sinks -/
+theorem multiSync_matches_source (errs : List Bool) (fuel : Nat) :
+    run X (fuel + 1) "Sync" [] [("ws", .list (syncSinksOf errs))] =
+      .done [.list ((multiSync errs).1.map fun (i : Nat) => Val.int i)] [("ws", .list (syncSinksOf errs))] := by
+  refine run_of_fin X _ _ Gen.TransMultiWS.Sync [] _ _ _ rfl rfl ?_
+  show (exec X (fuel + 1) Sync_body ⟨[], _⟩).fin = _
+  rw [exec_succ]
+  obtain ⟨t, hl⟩ := multiSync_loop_matches_source errs (exec X fuel)
+  simp only [sAbs, List.map_nil, List.append_nil] at hl
+  simp [Sync_body, hl]
 
 end ZapVerif.C13
